@@ -229,10 +229,27 @@ func VerifC05Objects() {
 		" \"init\" : func(v) {\n  super[0]()\n  this.v := v\n  inits := inits + 1\n },\n" +
 		" \"get\" : func() {\n  return this.v + this.pa + this.pb + this.pc\n }\n}\n" +
 		"o := new(C, X)\nr := o.get()\ng := o.ia\no2 := new(C, 1)\nq := o.v"
+	y := zz.Float64("y")
+	vs.SetValue("Y", y)
+	tmpl := zz.Choice("objectTemplate", 3)
+	switch tmpl {
+	case 1: // template built inside a factory function: its methods are closures over the factory's locals
+		src = "func mk(n) {\n T := {\n  \"init\" : func(v) {\n   this.v := v\n  },\n  \"get\" : func() {\n   return n + this.v\n  }\n }\n return new(T, X)\n}\no := mk(Y)\nr := o.get()"
+	case 2: // global template instantiated inside a function that shadows a name the method uses
+		src = "x := X\nT := {\n \"get\" : func() {\n  return x\n }\n}\nfunc user() {\n let x := 5\n o := new(T)\n return o.get()\n}\nr := user()"
+	}
 	_, err := zzRun(erp, src, vs)
 	zz.Reach("evaluated")
 	zz.Assert(err == nil, "C05.object-program-evaluates")
 	if err != nil {
+		return
+	}
+	if tmpl == 1 {
+		c05Num(vs, "r", y+x, "C05.methods-resolve-names-lexically")
+		return
+	}
+	if tmpl == 2 {
+		c05Num(vs, "r", x, "C05.methods-resolve-names-lexically")
 		return
 	}
 	c05Num(vs, "r", x+1+2+3, "C05.object-has-own-and-inherited-properties-and-this")
